@@ -285,7 +285,21 @@ def part_decorators(payload):
             calls["n"] += 1
             return "ran"
 
+        @accepts(a=dim, k=dim)
+        def f_catchall(a, **opts):
+            calls["n"] += 1
+            return "ran"
+
+        @accepts(k=dim)
+        def f_only_catchall(*args, **opts):
+            calls["n"] += 1
+            return "ran"
+
         usages = []
+        for q in spell[:2]:
+            usages += [("catch-all-kwargs", lambda q=q: f_catchall(q, k=q), True), ("catch-all-kwargs-wrong", lambda q=q: f_catchall(q, k=wrong), False), ("catch-all-kwargs-wrong-first", lambda q=q: f_catchall(wrong, k=q), False),
+                       ("catch-all-kwargs-unchecked-extra", lambda q=q: f_catchall(q, k=q, other=wrong), True), ("only-catch-all", lambda q=q: f_only_catchall(1, 2, k=q), True),
+                       ("only-catch-all-wrong", lambda q=q: f_only_catchall(1, k=wrong), False)]
         for q in spell:
             usages += [
                 ("positional", lambda q=q: f_pos(q, q), True), ("keyword", lambda q=q: f_pos(a=q, b=q), True), ("mixed", lambda q=q: f_pos(q, b=q), True),
